@@ -299,4 +299,61 @@ for it in range(N // 3):
     R.check("outlier-tolerant superimposition never reports a fit worse than its own anchors imply", f"without_outliers max_iterations={cfg[2]}",
             {"n": cfg[0], "outliers": cfg[1], "max_iterations": cfg[2], "min_anchors": cfg[3], "draw": it},
             lambda cfg=cfg: outlier_contract(*cfg))
+def homologs_contract(chain_lengths, deleted, which):
+    """superimpose_homologs() on a multi-chain structure and a rigid copy of it in which a few residues of the first
+    chain are missing (in the fixed or in the mobile structure): the anchors pair the same residues, the result is a
+    proper rigid motion, and the copy is fitted back onto the original"""
+    import atexit
+    import os
+    import shutil
+    import tempfile
+    import biotite.structure.info as info
+    from fixtures.make_ccd import main as make_ccd
+    if not getattr(homologs_contract, "ccd", None):
+        d = tempfile.mkdtemp(prefix="verif-ccd-")
+        atexit.register(shutil.rmtree, d, True)
+        homologs_contract.ccd = os.path.join(d, "components.bcif")
+        make_ccd(homologs_contract.ccd)
+        info.set_ccd_path(homologs_contract.ccd)
+    r = np.random.default_rng(sum(chain_lengths) * 31 + len(deleted))
+    n = sum(chain_lengths)
+    full = struc.AtomArray(n)
+    steps = r.normal(size=(n, 3))
+    steps *= 3.8 / np.linalg.norm(steps, axis=-1)[:, None]
+    full.coord = np.cumsum(steps, axis=0).astype(np.float32)
+    full.atom_name[:] = "CA"
+    full.element[:] = "C"
+    full.hetero[:] = False
+    full.res_name = r.choice(["GLY", "ALA", "SER"], size=n)
+    full.chain_id = np.array([c for c, ln in zip("ABCDE", chain_lengths) for _ in range(ln)])
+    full.res_id = np.array([k + 1 for ln in chain_lengths for k in range(ln)])
+    keep = np.ones(n, dtype=bool)
+    keep[list(deleted)] = False
+    Rm, t = rot(r), r.uniform(-20, 20, size=3)
+    moved = full.copy()
+    moved.coord = (full.coord.astype(float) @ Rm.T + t).astype(np.float32)
+    fixed, mobile = (full[keep], moved) if which == "fixed" else (full, moved[keep])
+    try:
+        fitted, transform, fa, ma = struc.superimpose_homologs(fixed, mobile)
+    except Exception as e:
+        return f"superimpose_homologs raised {type(e).__name__}: {e}"
+    same_res = (fixed.chain_id[fa] == mobile.chain_id[ma]) & (fixed.res_id[fa] == mobile.res_id[ma])
+    if len(fa) != len(ma) or len(fa) < 0.6 * keep.sum() or same_res.mean() < 0.8:
+        return (f"{len(fa)} anchor pairs, {int(same_res.sum())} of them pair a residue with its own copy "
+                f"(chains of {chain_lengths} residues, residues {list(deleted)} missing in the {which} structure)")
+    rmsd = float(np.sqrt(np.mean(np.sum((fitted.coord[ma].astype(float) - fixed.coord[fa].astype(float)) ** 2, axis=-1))))
+    if rmsd > 0.5:
+        return f"a rigid copy is fitted with an anchor RMSD of {rmsd:.2f} (residues {list(deleted)} missing in the {which} structure)"
+    Mx = np.asarray(transform.as_matrix(), dtype=float).reshape(-1, 4, 4)[0][:3, :3]
+    if abs(np.linalg.det(Mx) - 1) > 1e-3 or not np.allclose(Mx @ Mx.T, np.eye(3), atol=1e-3):
+        return "the transformation is not a proper rotation"
+    return None
+
+
+for chain_lengths, deleted in (((30, 25), (4, 5, 6)), ((30, 25), (10,)), ((20, 20, 20), (2, 3)), ((30, 25), ())):
+    for which in ("fixed", "mobile"):
+        R.check("superimpose: proper rotation, optimal RMSD, apply == matrix", "superimpose_homologs with chains of different length",
+                {"chains": list(chain_lengths), "missing residues": list(deleted), "missing in": which},
+                lambda chain_lengths=chain_lengths, deleted=deleted, which=which: homologs_contract(chain_lengths, deleted, which))
+
 R.finish()
